@@ -30,14 +30,14 @@ func (c *vConsole) Write(p []byte) (int, error) {
 func vMachine() (*Memory, *IO, *vConsole) {
 	real := NewMemory()
 	m := new(Memory)
-	vHavoc(&m.buf, "mem")
+	vHavoc(m, "mem") // every byte arbitrary (whatever the type keeps inside)
 	for a := 0; a < 8; a++ {
-		m.buf[a] = real.buf[a]
+		m.Set(uint16(a), real.Get(uint16(a)))
 	}
 	for a := 0xfe06; a < 0xfe06+23; a++ {
-		m.buf[a] = real.buf[a]
+		m.Set(uint16(a), real.Get(uint16(a)))
 	}
-	m.buf[0xff03] = real.buf[0xff03]
+	m.Set(0xff03, real.Get(0xff03))
 	cons := &vConsole{}
 	io := NewIO()
 	io.SetStdout(cons)
@@ -51,9 +51,9 @@ func vOutsideBIOS(a uint16) bool { return vAnd(a >= 0x0100, a < 0xfe00) }
 func vCaller(m *Memory, s *z80.States) {
 	pc := s.PC
 	vAssume(vAnd(pc >= 0x0100, pc < 0xfe00-3))
-	m.buf[pc] = 0xcd
-	m.buf[pc+1] = 0x05
-	m.buf[pc+2] = 0x00
+	m.Set(pc, 0xcd)
+	m.Set(pc+1, 0x05)
+	m.Set(pc+2, 0x00)
 	s1, s2 := s.SP-1, s.SP-2
 	vAssume(vAnd(vOutsideBIOS(s1), vOutsideBIOS(s2)))
 	vAssume(vAnd(vOr(s1 < pc, s1 > pc+2), vOr(s2 < pc, s2 > pc+2)))
@@ -66,13 +66,13 @@ func vReturned(cpu *z80.CPU, s z80.States, m, ref *Memory) {
 	vAssert("bc-hl-ix-iy-kept", vAnd(vAnd(cpu.BC == s.BC, cpu.HL == s.HL), vAnd(cpu.IX == s.IX, cpu.IY == s.IY)))
 	probe := vU16("probe")
 	vAssume(vAnd(probe != s.SP-1, probe != s.SP-2))
-	vAssert("memory-intact", m.buf[probe] == ref.buf[probe])
+	vAssert("memory-intact", m.Get(probe) == ref.Get(probe))
 	vAssert("no-warning", vWarnCount() == 0)
 }
 
 func vCopyMem(m *Memory) *Memory {
 	r := new(Memory)
-	r.buf = m.buf
+	*r = *m
 	return r
 }
 
@@ -110,9 +110,9 @@ func VC18Fn9(n int) {
 		vAssume(vAnd(a != s.SP-1, a != s.SP-2))
 		if i < n {
 			vAssume(str[i] != '$')
-			m.buf[a] = str[i]
+			m.Set(a, str[i])
 		} else {
-			m.buf[a] = '$'
+			m.Set(a, '$')
 		}
 	}
 	ref := vCopyMem(m)
@@ -137,7 +137,7 @@ func VC18Fn9Lemma() {
 	s.PC = 0xfe14
 	de := uint16(s.DE.Hi)<<8 | uint16(s.DE.Lo)
 	vAssume(vOutsideBIOS(de))
-	ch := m.buf[de]
+	ch := m.Get(de)
 	ref := vCopyMem(m)
 	cpu := &z80.CPU{States: s, Memory: m, IO: io}
 	if vCase(ch != '$') {
@@ -154,11 +154,11 @@ func VC18Fn9Lemma() {
 			cpu.Step()
 		}
 		vAssert("nothing-written", cons.n == 0)
-		vAssert("returns", vAnd(cpu.SP == s.SP+2, cpu.PC == uint16(ref.buf[s.SP])|uint16(ref.buf[s.SP+1])<<8))
+		vAssert("returns", vAnd(cpu.SP == s.SP+2, cpu.PC == uint16(ref.Get(s.SP))|uint16(ref.Get(s.SP+1))<<8))
 		vAssert("de-kept", cpu.DE == s.DE)
 	}
 	probe := vU16("probe")
-	vAssert("memory-intact", m.buf[probe] == ref.buf[probe])
+	vAssert("memory-intact", m.Get(probe) == ref.Get(probe))
 	vAssert("no-warning", vWarnCount() == 0)
 }
 
@@ -169,9 +169,9 @@ func VC18WarmBoot() {
 	vHavoc(&s, "s")
 	pc := s.PC
 	vAssume(vAnd(pc >= 0x0100, pc < 0xfe00-3))
-	m.buf[pc] = 0xc3
-	m.buf[pc+1] = 0x00
-	m.buf[pc+2] = 0x00
+	m.Set(pc, 0xc3)
+	m.Set(pc+1, 0x00)
+	m.Set(pc+2, 0x00)
 	cpu := &z80.CPU{States: s, Memory: m, IO: io}
 	for i := 0; i < 3; i++ {
 		cpu.Step()
@@ -213,7 +213,7 @@ func VC18Seq() {
 	vAssume(vAnd(pc >= 0x0100, pc < 0xfe00-8))
 	prog := [8]uint8{0xcd, 0x05, 0x00, 0x0e, 0x09, 0xcd, 0x05, 0x00} // CALL 5 ; LD C,9 ; CALL 5
 	for i := 0; i < 8; i++ {
-		m.buf[pc+uint16(i)] = prog[i]
+		m.Set(pc+uint16(i), prog[i])
 	}
 	s.BC.Lo = 2
 	s1, s2 := s.SP-1, s.SP-2
@@ -228,8 +228,8 @@ func VC18Seq() {
 		vAssume(vOr(a < pc, a > pc+7))
 		vAssume(vAnd(a != s1, a != s2))
 	}
-	m.buf[de] = ch
-	m.buf[de+1] = '$'
+	m.Set(de, ch)
+	m.Set(de+1, '$')
 	cpu := &z80.CPU{States: s, Memory: m, IO: io}
 	for i := 0; i < 8+1+16; i++ { // fn 2 (8 Steps), LD C,9, fn 9 with one character (10+6)
 		cpu.Step()
